@@ -669,6 +669,9 @@ class Interp:
                 return set(a) | set(b)
             if op == "BitAnd":
                 return set(a) & set(b)
+        if isinstance(a, (set, frozenset)) or isinstance(b, (set, frozenset)) or (isinstance(a, tuple) and a and a[0] in ("set", "frozenset")) \
+                or (isinstance(b, tuple) and b and b[0] in ("set", "frozenset")):
+            return ("setop", op, to_term(a), to_term(b))
         return self.pm.binop(op, a, b, node)
 
     def ex_Compare(self, e):
